@@ -9,7 +9,7 @@ CONSTANTS
   MaxCells = 400
   ValSet = {0, 1, 2, 1000000}
   ExhMax = 4
-  NSamples = 10
+  NSamples = 16
   Primes = {2, 3, 5}
 INVARIANT InvCase
 CHECK_DEADLOCK FALSE
